@@ -8,8 +8,8 @@
 
    The model follows the code that exists, defects included.  Every place where the code is
    known to deviate from its intent is a *variant* switch (record c07_variant): the value
-   c07_faithful is the code as it is, c07_before_fixes the code before the two encoder fixes
-   already merged, c07_repaired has every known repair applied.  Definitions only. *)
+   c07_faithful is the code as it is, c07_before_fixes the code before the encoder fixes already
+   merged, c07_repaired has every known repair applied.  Definitions only. *)
 From Coq Require Import String Ascii.
 From Coq Require Import Sorting.Mergesort Orders.
 From Verif Require Export Base.
@@ -140,7 +140,7 @@ Definition c07_drop (n : Z) (ds : c07_ds) : c07_ds :=
 Record c07_variant := {
   vr_copy_template : bool;   (* true: grid_topology = dict(ugrid.BASE_GRID_TOPOLOGY_ATTRS)
                                 false: the module-level dict itself (alias)                    *)
-  vr_exo_fill : Z;           (* value the Exodus encoder compares with to find padding: -1     *)
+  vr_exo_fill : Z;           (* value the Exodus encoder compares with to find padding          *)
   vr_exo_accumulate : bool;  (* false: start = num_faces ; true: start += num_faces            *)
   vr_exo_deg2rad : bool;     (* true: np.deg2rad before _lonlat_rad_to_xyz ; false: degrees fed in *)
   vr_exo_read_all : bool;    (* false: _read_exodus keeps only the last connect block         *)
@@ -150,19 +150,21 @@ Record c07_variant := {
                                 _to_ugrid turns repeated trailing corners back into padding *)
 }.
 
-(* the code as it is (after /repo commits 0ec27eb7 "template copied" and ce96ede9 "deg2rad") *)
+(* the code as it is: template copied (0ec27eb7), deg2rad (ce96ede9), Exodus padding test on
+   INT_FILL_VALUE + start accumulated + reader concatenating every block (5ac9d665), helper
+   attributes stripped from the exported copy (9a5ff0a0); SCRIP unchanged *)
 Definition c07_faithful : c07_variant :=
-  {| vr_copy_template := true; vr_exo_fill := -1; vr_exo_accumulate := false;
-     vr_exo_deg2rad := true; vr_exo_read_all := false; vr_strip_helpers := false;
+  {| vr_copy_template := true; vr_exo_fill := FILL; vr_exo_accumulate := true;
+     vr_exo_deg2rad := true; vr_exo_read_all := true; vr_strip_helpers := true;
      vr_scrip_pad := false |}.
 
-(* the code before those two commits (kept: the theorems say what each repair buys) *)
+(* the code before those commits (kept: the theorems say what each repair buys) *)
 Definition c07_before_fixes : c07_variant :=
   {| vr_copy_template := false; vr_exo_fill := -1; vr_exo_accumulate := false;
      vr_exo_deg2rad := false; vr_exo_read_all := false; vr_strip_helpers := false;
      vr_scrip_pad := false |}.
 
-(* all known repairs applied *)
+(* all known repairs applied (adds the proposed SCRIP padding repair) *)
 Definition c07_repaired : c07_variant :=
   {| vr_copy_template := true; vr_exo_fill := FILL; vr_exo_accumulate := true;
      vr_exo_deg2rad := true; vr_exo_read_all := true; vr_strip_helpers := true;
@@ -198,7 +200,8 @@ Definition c07_ugrid_updates (ds : c07_ds) (gt : c07_dict) : c07_dict :=
 Record c07_ugrid_out := {
   uo_template : c07_dict;     (* the module-level dict after the call *)
   uo_ds : c07_ds;             (* the returned dataset *)
-  uo_same_object : bool       (* returned dataset is the very object passed in (Grid._ds) *)
+  uo_same_object : bool       (* returned dataset is the very object passed in (since /repo 944273fc
+                                 the dispatch passes self._ds.copy(deep=True), no longer Grid._ds) *)
 }.
 
 Definition c07_topology_var (gt : c07_dict) : c07_var :=
